@@ -123,6 +123,102 @@ def run(ctx):
         if bad:
             ctx.violation(bad, {'secret': hx(secret), 'ops': [(k, hx(c)) for k, c in seq][:40]},
                           key={'secret': hx(secret), 'n_ops': len(seq)})
+    # ---- a thread switch right after a cipher call returns and before the wrapper has used its result
+    # (forced: the cipher contexts are proxies that run ANOTHER wrapper operation at that point -- the other
+    # direction of the same connection, or a second connection): directions and connections are independent
+    class SwitchCtx:
+        def __init__(self, real):
+            self.real, self.hook = real, None
+
+        def _switch(self):
+            h, self.hook = self.hook, None
+            if h is not None:
+                h()
+
+        def update(self, data):
+            r = self.real.update(data)
+            self._switch()
+            return r
+
+        def update_into(self, data, buf):
+            n = self.real.update_into(data, buf)
+            self._switch()
+            return n
+    for trial in range(ctx.scale(24, 200)):
+        sa, sb_ = bytes(rng.randrange(256) for _ in range(16)), bytes(rng.randrange(256) for _ in range(16))
+        ca, cb_ = E.create_AES_cipher(sa), E.create_AES_cipher(sb_)
+        ia, ib = Inner(), Inner()
+        ea, da, eb, db = SwitchCtx(ca.encryptor()), SwitchCtx(ca.decryptor()), SwitchCtx(cb_.encryptor()), SwitchCtx(cb_.decryptor())
+        wa, wb = E.EncryptedSocketWrapper(ia, ea, da), E.EncryptedSocketWrapper(ib, eb, db)
+        fa = E.EncryptedFileObjectWrapper(ia, da)
+        out_a = bytes(rng.randrange(256) for _ in range(rng.choice([1, 5, 40])))
+        out_b = bytes(rng.randrange(256) for _ in range(rng.choice([1, 7, 33])))
+        in_a = bytes(rng.randrange(256) for _ in range(rng.choice([1, 6, 50])))
+        ia.inbox = refcodec.CFB8(sa, encrypt=True).update(in_a)
+        got = {}
+        kind = ['send|recv', 'recv|send', 'send|other-send', 'read|other-send'][trial % 4]
+        if kind == 'send|recv':
+            ea.hook = lambda: got.__setitem__('in', wa.recv(len(in_a)))
+            wa.send(out_a)
+        elif kind == 'recv|send':
+            da.hook = lambda: wa.send(out_a)
+            got['in'] = wa.recv(len(in_a))
+        elif kind == 'send|other-send':
+            ea.hook = lambda: wb.send(out_b)
+            wa.send(out_a)
+        else:
+            da.hook = lambda: wb.send(out_b)
+            got['in'] = fa.read(len(in_a))
+        ctx.case(('switch', trial, kind))
+        ctx.count('switch.' + kind)
+        bad = None
+        if b''.join(ia.sent) != (refcodec.CFB8(sa, encrypt=True).update(out_a) if 'other' not in kind or kind.startswith('send') else b''):
+            bad = 'bytes sent on connection A are not the CFB8 encryption of its plaintext'
+        elif 'in' in got and got['in'] != in_a:
+            bad = 'bytes received on connection A do not decrypt to what the peer encrypted'
+        elif 'other' in kind and b''.join(ib.sent) != refcodec.CFB8(sb_, encrypt=True).update(out_b):
+            bad = 'bytes sent on connection B are not the CFB8 encryption of its plaintext'
+        if bad:
+            ctx.violation('thread switch between a cipher call and the use of its result (%s): %s' % (kind, bad),
+                          {'kind': kind, 'secret_a': hx(sa), 'secret_b': hx(sb_)}, key={'kind': 'switch', 'schedule': kind})
+    # ---- overlapping logins: while the key of server A is being loaded, a complete token/secret encryption
+    # for server B runs (another connection's login); afterwards each key holder recovers its own values
+    real_load = E.load_der_public_key
+    for trial in range(ctx.scale(6, 30)):
+        ka, kb = (rsakeys.RSA_1024, rsakeys.RSA_2048) if trial % 2 else (rsakeys.RSA_2048, rsakeys.RSA_1024)
+        res = {}
+        depth = {'n': 0}
+
+        def load(der, *a, **k):
+            depth['n'] += 1
+            try:
+                if depth['n'] == 1 and der == ka['der']:
+                    key = real_load(der, *a, **k) if trial % 3 else None
+                    res['b'] = E.encrypt_token_and_secret(kb['der'], b'tokB', b'B' * 16)      # the other login, complete
+                    return key if key is not None else real_load(der, *a, **k)
+                return real_load(der, *a, **k)
+            finally:
+                depth['n'] -= 1
+        E.load_der_public_key = load
+        try:
+            res['a'] = E.encrypt_token_and_secret(ka['der'], b'tokA', b'A' * 16)
+            res['b2'] = E.encrypt_token_and_secret(kb['der'], b'tokB2', b'b' * 16)         # a later login to B
+            res['a2'] = E.encrypt_token_and_secret(ka['der'], b'tokA2', b'a' * 16)
+        finally:
+            E.load_der_public_key = real_load
+        ctx.case(('overlapping-logins', trial))
+        for name, key, tok, sec in (('a', ka, b'tokA', b'A' * 16), ('b', kb, b'tokB', b'B' * 16),
+                                    ('b2', kb, b'tokB2', b'b' * 16), ('a2', ka, b'tokA2', b'a' * 16)):
+            try:
+                et, es = res[name]
+                rt, rs = refcodec.rsa_pkcs1v15_decrypt(key, et), refcodec.rsa_pkcs1v15_decrypt(key, es)
+            except Exception as e:
+                rt = rs = repr(e)
+            if rt != tok or rs != sec:
+                ctx.violation('overlapping logins to two servers: the holder of key %s does not recover token/secret of login %r'
+                              % ('A' if key is ka else 'B', name), {'login': name, 'got_token': repr(rt)[:60]},
+                              key={'kind': 'overlapping-logins', 'login': name})
+                break
     # ---- a transient failure of the inner socket (EINTR/EAGAIN-style): whatever a wrapper call does
     # about it, the bytes that reach the wire must stay ONE CFB8 stream of the plaintext of the calls
     # that returned normally (a call that raises ends the trial: the channel is then broken by design)
